@@ -26,6 +26,20 @@ Theorem c12_invariant : forall n_genes pairs marks n trace st,
 Proof. exact invariant. Qed.
 Print Assumptions c12_invariant.
 
+(* ... and it is an invariant of the loop proper: J (Proofs/SelectionP.v: the five clauses above plus
+   NoDup chosen, chosen genes < n_genes, every chosen gene marks a slot of the parent) holds when
+   `while True` is entered (after the first fill pass and the desperate phase) and is preserved by
+   every legal iteration *)
+Theorem c12_invariant_initially : forall n_genes pairs marks n,
+  J n_genes pairs marks n (start n_genes pairs marks n).
+Proof. exact J_start. Qed.
+Print Assumptions c12_invariant_initially.
+
+Theorem c12_invariant_preserved : forall n_genes pairs marks n st g st',
+  J n_genes pairs marks n st -> step n_genes pairs marks n st g = Some st' -> J n_genes pairs marks n st'.
+Proof. exact J_step. Qed.
+Print Assumptions c12_invariant_preserved.
+
 (* `filled` only grows along a step *)
 Theorem c12_filled_monotone : forall n_genes pairs marks n st g st' s,
   step n_genes pairs marks n st g = Some st' -> filled st s = true -> filled st' s = true.
@@ -121,6 +135,17 @@ Theorem c12_pair_order_irrelevant : forall n_genes marks n pairs pairs',
 Proof. exact pair_order_irrelevant. Qed.
 Print Assumptions c12_pair_order_irrelevant.
 
+(* with a tie-breaking rule that looks only at the utility array and the taken genes (the
+   model's deterministic instance; np.argsort of the utility array is another such rule) the
+   selected set itself is the same under both orders *)
+Theorem c12_greedy_order_irrelevant : forall n_genes marks n pairs pairs',
+  Permutation pairs pairs' -> forall fuel st,
+  greedy n_genes pairs marks n fuel (start n_genes pairs marks n) = Some st ->
+  exists st', greedy n_genes pairs' marks n fuel (start n_genes pairs' marks n) = Some st' /\
+              Permutation (chosen st) (chosen st').
+Proof. exact greedy_order_irrelevant. Qed.
+Print Assumptions c12_greedy_order_irrelevant.
+
 (* ... and the two index arrays the pipeline can produce for one parent (sorted global indices
    on the full table = "behemoth"; positions in leaves_to_compare order after
    downsample_pairs_to_other) are such permutations *)
@@ -160,3 +185,12 @@ Example ex_coverage_tight :
   option_map (fun st => (covered (marks_of ex_pd) (chosen st) 0, covered (marks_of ex_pd) (genes 4) 0))
              (run 4 [0; 1] (marks_of ex_pd) 1 (start 4 [0; 1] (marks_of ex_pd) 1) [2; 0]) = Some (2, 3).
 Proof. vm_compute. reflexivity. Qed.
+(* the hypothesis of c12_coverage is needed: a table (outside the quantifier - the reference-marker
+   writer never produces it) in which gene 0 marks pair 0 both ways; n = 1: the loop takes gene 0,
+   the aggregate is 2 = 2n, the pair counts as done with ONE selected marker although 3 are available *)
+Example ex_hypothesis_needed :
+  let pd := [([0], [0; 1; 2])] in
+  both_ways_free pd = false /\
+  option_map (fun st => (chosen st, covered (marks_of pd) (chosen st) 0, covered (marks_of pd) (genes 3) 0))
+             (run 3 [0] (marks_of pd) 1 (start 3 [0] (marks_of pd) 1) [0]) = Some ([0], 1, 3).
+Proof. vm_compute. split; reflexivity. Qed.
